@@ -24,20 +24,20 @@ type goPanic struct {
 }
 
 type Config struct {
-	Unwind      int  // max symbolic loop iterations per loop activation
+	Unwind       int  // max symbolic loop iterations per loop activation
 	UnwindAssume bool // exceeding Unwind prunes the path (recorded) instead of failing it
-	ListBound   int  // default bound for input slices
-	ByteBound   int  // bound for input []byte
-	StrConvMax  int  // bound when converting symbolic strings to byte slices
-	MaxDepth    int
-	MaxPaths    int
-	TimeoutMs   int
-	Solver      string
-	MapOrder    string // "", "reverse", "swap:<k>"
-	Bounds      map[string]int
-	Deadline    time.Time
-	SampleMax   int   // translator validation: number of returning paths whose model is replayed natively
-	SampleSeed  int64
+	ListBound    int  // default bound for input slices
+	ByteBound    int  // bound for input []byte
+	StrConvMax   int  // bound when converting symbolic strings to byte slices
+	MaxDepth     int
+	MaxPaths     int
+	TimeoutMs    int
+	Solver       string
+	MapOrder     string // "", "reverse", "swap:<k>"
+	Bounds       map[string]int
+	Deadline     time.Time
+	SampleMax    int // translator validation: number of returning paths whose model is replayed natively
+	SampleSeed   int64
 }
 
 func defaultConfig() *Config {
@@ -71,43 +71,44 @@ type WriteRec struct {
 }
 
 type PathRec struct {
-	End      string // return, panic, unwind, unsupported, infeasible, depth
-	Msg      string
-	Site     string
-	Covers   []string
-	Stubs    map[string]int
-	Writes   []WriteRec
-	Effects  []string
-	Reads    []string
+	End       string // return, panic, unwind, unsupported, infeasible, depth
+	Msg       string
+	Site      string
+	Covers    []string
+	Stubs     map[string]int
+	Writes    []WriteRec
+	Effects   []string
+	Reads     []string
 	Decisions int
-	Notes    map[string]string
-	PCModel  map[string]string
+	Notes     map[string]string
+	PCModel   map[string]string
 	NondetSeq []NondetRec
-	Sampled  bool
+	Sampled   bool
 }
 
 type Result struct {
-	Func      string
-	Paths     []PathRec
-	Ends      map[string]int
-	Asserts   int
-	AssertsOK int
-	Fails     []AssertFail
-	Inconclusive []AssertFail
-	Covers    map[string]int
-	Queries   int
-	SolverDur time.Duration
-	Wall      time.Duration
-	Stubs     map[string]int
-	FuncsRun  map[string]int
-	UnwindCuts map[string]int
-	Truncated bool
-	Unsupported map[string]int
+	Func           string
+	Paths          []PathRec
+	Ends           map[string]int
+	Asserts        int
+	AssertsOK      int
+	Fails          []AssertFail
+	Inconclusive   []AssertFail
+	Covers         map[string]int
+	Queries        int
+	SolverDur      time.Duration
+	Wall           time.Duration
+	Stubs          map[string]int
+	FuncsRun       map[string]int
+	UnwindCuts     map[string]int
+	Truncated      bool
+	SolverRestarts int
+	Unsupported    map[string]int
 }
 
 type deferred struct {
-	fv   *FuncV
-	args []Value
+	fv     *FuncV
+	args   []Value
 	native func()
 }
 
@@ -130,47 +131,48 @@ type Exec struct {
 	pos    int
 
 	// per path
-	nfresh    int
-	declared  map[string]bool
-	syms      []symInfo
-	nondet    []NondetRec
-	objSeq    int
-	lazyMemo  map[string]Value
-	depth     int
-	panicking *goPanic
-	covers    []string
-	stubs     map[string]int
-	writes    []WriteRec
-	effects   []string
-	notes     map[string]string
-	monitorOn bool
+	nfresh       int
+	declared     map[string]bool
+	syms         []symInfo
+	nondet       []NondetRec
+	objSeq       int
+	lazyMemo     map[string]Value
+	depth        int
+	panicking    *goPanic
+	covers       []string
+	stubs        map[string]int
+	writes       []WriteRec
+	effects      []string
+	notes        map[string]string
+	monitorOn    bool
 	monitorEpoch int
-	lockDepth map[*Obj]int
-	pcLines   []string // assertions of the current path (for cross-solver replay)
-	ghost     map[string][]Value
+	lockDepth    map[*Obj]int
+	pcLines      []string // assertions of the current path (for cross-solver replay)
+	ghost        map[string][]Value
 
 	// across paths
-	globals   map[*ssa.Global]*Obj
-	inited    map[*ssa.Package]bool
-	initMode  int
-	poisoned  map[string]int
-	initObjs  []*Obj
-	initSaved map[*Obj]Value
-	initMaps  []*MapObj
+	globals      map[*ssa.Global]*Obj
+	inited       map[*ssa.Package]bool
+	initMode     int
+	poisoned     map[string]int
+	initObjs     []*Obj
+	initSaved    map[*Obj]Value
+	initMaps     []*MapObj
 	initMapSaved map[*MapObj][2][]Value
-	dirtyObjs []*Obj
-	dirtyMaps []*MapObj
-	initDone  bool
-	initSeq   int
+	dirtyObjs    []*Obj
+	dirtyMaps    []*MapObj
+	initDone     bool
+	initSeq      int
 
-	res *Result
-	curSite string
-	ufDecls map[string]string // global UF declarations (sent once per solver, before any push)
-	pendingUF []string
+	res        *Result
+	curSite    string
+	ufDecls    map[string]string // global UF declarations (sent once per solver, before any push)
+	pendingUF  []string
 	intrinsics map[string]intrinsic
-	lazyIface map[string][]types.Type
-	fnCache map[string]*ssa.Function
-	curFn *ssa.Function
+	lazyIface  map[string][]types.Type
+	fnCache    map[string]*ssa.Function
+	curFn      *ssa.Function
+	loopCache  map[*ssa.Function]map[*ssa.BasicBlock]bool
 }
 
 type intrinsic func(e *Exec, fn *ssa.Function, args []Value) Value
@@ -179,6 +181,7 @@ func NewExec(prog *ssa.Program, cfg *Config) *Exec {
 	e := &Exec{prog: prog, cfg: cfg, globals: map[*ssa.Global]*Obj{}, inited: map[*ssa.Package]bool{}, poisoned: map[string]int{},
 		initSaved: map[*Obj]Value{}, initMapSaved: map[*MapObj][2][]Value{}, ufDecls: map[string]string{}, fnCache: map[string]*ssa.Function{}}
 	e.intrinsics = buildIntrinsics()
+	e.loopCache = map[*ssa.Function]map[*ssa.BasicBlock]bool{}
 	e.declared = map[string]bool{}
 	e.lazyMemo = map[string]Value{}
 	e.stubs = map[string]int{}
@@ -212,6 +215,26 @@ func (e *Exec) pos2s(p token.Pos) string {
 
 func (e *Exec) send(l string) {
 	e.s.Send(l)
+}
+
+// reviveSolver replaces a solver that died or was killed by the watchdog and
+// re-establishes the current path condition in the new process.
+func (e *Exec) reviveSolver() {
+	if !e.s.Dead() {
+		return
+	}
+	old := e.s
+	old.Close()
+	ns := NewSolver(e.cfg.Solver, e.cfg.TimeoutMs, "")
+	ns.Queries, ns.Dur, ns.Errors, ns.Kills = old.Queries, old.Dur, old.Errors, old.Kills
+	e.s = ns
+	ns.Send("(push 1)")
+	for _, l := range e.pcLines {
+		ns.Send(l)
+	}
+	if e.res != nil {
+		e.res.SolverRestarts++
+	}
 }
 
 func (e *Exec) declare(name, sort string) {
@@ -277,6 +300,7 @@ func (e *Exec) checkWith(extra string) string {
 	e.send("(assert " + extra + ")")
 	r := e.s.Check()
 	e.send("(pop 1)")
+	e.reviveSolver()
 	return r
 }
 
@@ -340,6 +364,9 @@ func (e *Exec) loopBranch(fr *frame, b *ssa.BasicBlock, c *BoolV) bool {
 	if c.C != nil {
 		return *c.C
 	}
+	if !e.countedBlocks(fr.fn)[b] {
+		return e.branch(c)
+	}
 	fr.symVisits[b]++
 	if fr.symVisits[b] > e.cfg.Unwind {
 		site := fr.fn.String() + " @" + e.curSite
@@ -358,7 +385,7 @@ func (e *Exec) concretize(idx *BV, n int) int {
 		return int(*idx.C)
 	}
 	for k := 0; k < n-1; k++ {
-		if e.branch(&BoolV{T: fmt.Sprintf("(= %s (_ bv%d %d))", idx.T, k, idx.W)}) {
+		if e.branch(bvcmp("=", idx, cbv(uint64(k), idx.W))) {
 			return k
 		}
 	}
@@ -451,6 +478,7 @@ func setPath(e *Exec, v Value, path []int, nv Value) Value {
 
 func (e *Exec) storeRaw(p *PtrV, nv Value) {
 	e.markDirty(p.O)
+	p.O.StrOrigin = nil
 	p.O.V = setPath(e, p.O.V, p.Path, nv)
 }
 
@@ -993,6 +1021,7 @@ func (e *Exec) RunWith(fn *ssa.Function, mkArgs func(e *Exec) []Value) *Result {
 		e.script = e.work[len(e.work)-1]
 		e.work = e.work[:len(e.work)-1]
 		e.resetPath()
+		e.reviveSolver()
 		e.send("(push 1)")
 		rec := PathRec{}
 		func() {
